@@ -19,6 +19,15 @@ fn one_name_per_id(s: &mut Scenario) {
     }
 }
 
+/// the expectation that goes with `one_name_per_id`: a record's name is the one name every fact about it carries
+fn one_name_per_id_exp(e: &mut Expected) {
+    for (k, kind) in KINDS.iter().enumerate() {
+        for (x, r) in e.recs[k].iter_mut() {
+            r.name = format!("{}{}#{}", kind.name(), x, x);
+        }
+    }
+}
+
 fn permuted(s: &Scenario, rng: &mut Rng) -> Scenario {
     let mut p = s.clone();
     rng.shuffle(&mut p.terms);
@@ -160,6 +169,7 @@ pub fn check_line(st: &mut Stats, line: &Value, seed: u64, conc_filter: Option<&
         }
         let (mut scn, mut exp) = from_tlc(&synth, &conc);
         one_name_per_id(&mut scn);
+        one_name_per_id_exp(&mut exp);
         exp.order = None;
         let mut d: Vec<String> = vec![];
         let mut all = build_all(&scn, "call-order", jax, true, &mut rng);
